@@ -402,6 +402,20 @@ def hexarg(b):
     return b.hex() if b else '-'
 
 
+class Sparse:
+    """A mostly-zero file: total size in sectors and the non-zero sectors."""
+
+    def __init__(self, sectors, table):
+        self.sectors = sectors
+        self.table = table
+
+    def __len__(self):
+        return 10 ** 9      # never inlined into replay files
+
+    def hex(self):
+        return 'sparse:%d sectors, %d non-zero' % (self.sectors, len(self.table))
+
+
 class Case:
     def __init__(self, tag, files, argv, ndebug=True, cols=None, dest=None, meta=None):
         self.tag = tag
@@ -444,6 +458,17 @@ def run_cases(cases, impl_bin, kind_env=None, workers=16, timeout=20):
             reqs.append('clearfiles')
             for name, content in c.files.items():
                 p = os.path.join(d, name)
+                if isinstance(content, Sparse):
+                    with open(p, 'wb') as f:
+                        f.truncate(content.sectors * 256)
+                        for idx, sec in sorted(content.table.items()):
+                            f.seek(idx * 256)
+                            f.write(sec)
+                    with open(p + '.records', 'wb') as f:
+                        for idx, sec in sorted(content.table.items()):
+                            f.write(idx.to_bytes(4, 'little') + sec)
+                    reqs.append('filesparse %s %d %s' % (hexarg(p), content.sectors, p + '.records'))
+                    continue
                 with open(p, 'wb') as f:
                     f.write(content)
                 if name.endswith('.gz'):
